@@ -1,5 +1,5 @@
 From Coq Require Import Extraction ExtrOcamlBasic.
-From NPS Require Import ListAux PySlice NumpySem Shape Scatter BuildIdx View Index RowsSpec XorBroadcast Reduce RLE Assign AssignSpec Hash MapSpec HashRun BitArr RLEOps Scan RaOps RLEWindowsVec RLE2d RL2Any DataClass IdxWidth Geometry HeapRun Heap DataClassProof Struct2 FastIndices.
+From NPS Require Import ListAux PySlice NumpySem Shape Scatter BuildIdx View Index RowsSpec XorBroadcast Reduce RLE Assign AssignSpec Hash MapSpec HashRun BitArr RLEOps Scan RaOps RLEWindowsVec RLE2d RL2Any RL2Mean RL2RowAgg RaMean DataClass IdxWidth Geometry HeapRun Heap DataClassProof Struct2 FastIndices.
 Definition getitem_model_Z (r : list (list Z)) (idx : index) : res (result Z) :=
   rbind (getitem (ra_of_rows r) idx) observe.
 Definition getitem_spec_Z (r : list (list Z)) (idx : index) : res (result Z) := spec_getitem r idx.
@@ -57,6 +57,8 @@ Definition op_rslice2d (x : list (list Z)) (w : Z) (st en : list Z) := (rmap fr_
 Definition op_rslice (x : list (list Z)) (st en : list Z) := (rmap fr_rows (ra_ragged_slice (fr x) st en), spec_ragged_slice x st en).
 Definition op_padded (x : list (list Z)) (fill : Z) (left : bool) := (ra_padded (fr x) fill left, spec_padded x fill left).
 Definition op_colsum (x : list (list Z)) := (ra_colsum (fr x), spec_colsum x).
+Definition op_colmean (x : list (list Z)) :=
+  (ra_col_mean pair (fr x), map (fun j => (zsum (map (fun r => nth j r 0%Z) x), zlen (filter (fun r => Nat.ltb j (length r)) x))) (seq 0 (fold_left Nat.max (map (@length Z) x) O))).
 Definition op_colcounts (x : list (list Z)) := (ra_col_counts (map zlen x), spec_col_counts x).
 Definition op_where (x : list (list Z)) (m : list (list bool)) (y : list (list Z)) := (rmap fr_rows (ra_where (fr_of_rows m) (fr x) (fr y)), spec_where m x y).
 Definition op_where_s (x : list (list Z)) (m : list (list bool)) (y : Z) := (rmap fr_rows (ra_where_s (fr_of_rows m) (fr x) y), spec_where_s m x y).
@@ -95,6 +97,15 @@ Definition rl2_any_Z (rows : list (list Z)) : (list Z * list Z) * list Z * list 
   let b2z (b : bool) := if b then 1 else 0 in
   ((fst r, map b2z (snd r)), map b2z (decode bool r),
    match rows with [] => [] | r0 :: _ => map (fun j => b2z (existsb (fun row => negb (nth j row 0 =? 0)) rows)) (seq 0 (length r0)) end).
+(* mean(axis=0) of the ragged variant: the code's representation with every value kept as the pair (column sum, column count) -- two pairs
+   are "equal" (joined by the binary path) when they are the same fraction -- its decoding, and the specification on the dense rows *)
+Definition rl2_mean_Z (rows : list (list Z)) : option ((list Z * list (Z * Z)) * list (Z * Z)) * list (Z * Z) :=
+  let ceqb (a b : Z * Z) := (fst a * snd b =? fst b * snd a)%Z in
+  (match rl2_col_mean (Z * Z) ceqb pair (from_ragged rows) with Ok r => Some (r, decode (Z * Z) r) | Refused => None end,
+   map (fun j => (zsum (map (fun row => nth j row 0%Z) rows), zlen (filter (fun row => Nat.ltb j (length row)) rows)))
+       (seq 0 (fold_left Nat.max (map (@length Z) rows) O))).
+Definition rl2_rowagg (x : rl2) : list Z * list Z * list (Z * Z) :=
+  let b2z (b : bool) := if b then 1%Z else 0%Z in (map b2z (rl2_any_rows x), map b2z (rl2_all_rows x), rl2_mean_rows pair x).
 Definition dc_new (o : list (list Z)) : res Z := rmap (obj_len Z) (mk_obj Z o).
 Definition dc_new_spec (o : list (list Z)) : res Z :=
   match o with [] => Ok 0%Z | f :: r => if forallb (fun g => zlen g =? zlen f) r then Ok (zlen f) else Refused end.
@@ -108,4 +119,4 @@ Definition dc_item_spec (o : list (list Z)) (i : Z) := np_item (dc_entries o) i.
 Definition dc_concat (os : list (list (list Z))) := obj_concat Z os.
 Definition dc_eq (o o' : list (list Z)) : bool := Nat.eqb (length o) (length o') && obj_eqb Z Z.eqb o o'.
 Definition dc_concat_spec (os : list (list (list Z))) := cols Z 0%Z (match os with [] => O | o :: _ => length o end) (flat_map dc_entries os).
-Extraction "oracle_core.ml" geo_model geo_spec build_model build_spec flat_model flat_spec tonumpy_model tonumpy_spec fromnumpy_model offsets_model offsets_spec mi_model mi_spec heap_run dc_new dc_new_spec dc_select dc_select_spec dc_item dc_item_spec dc_iter dc_astype dc_concat dc_concat_spec dc_eq from_ragged from_matrix rl2_obs rl2_select rl2_elem rl2_col rl2_sum rl2_max rl2_argmax rl2_ravel rl2_concat rl2_map rl2_map_col rl2_col_counts rl2_col_sum rl2_col_range rl2_intervals rl2_any_Z varlen_concat op_ufunc op_reduce op_cumsum op_accumulate op_diff op_sort op_unique op_nonzero op_subset op_rslice op_rslice1d op_rslice2d op_padded op_colsum op_colcounts op_argmax op_argmin rle_windows_Z rle_rlmask_Z op_fastidx op_where op_where_s op_like op_concat1 rle_encode rle_to_array rle_slice rle_slice_spec rle_get rle_bin rle_bin_spec rle_concat_Z rle_sum_Z rle_decode bit_unpack bit_get bit_getlist bit_window spec_windows Z.add Z.mul Z.opp Z.div_eucl Z.ltb hash_model hash_spec hash_eq hash_add setitem_model_Z setitem_spec_Z getitem_model_Z getitem_spec_Z chain_model_Z chain_spec_Z shape_codes sh_starts sh_lengths sh_size excl_prefix.
+Extraction "oracle_core.ml" geo_model geo_spec build_model build_spec flat_model flat_spec tonumpy_model tonumpy_spec fromnumpy_model offsets_model offsets_spec mi_model mi_spec heap_run dc_new dc_new_spec dc_select dc_select_spec dc_item dc_item_spec dc_iter dc_astype dc_concat dc_concat_spec dc_eq from_ragged from_matrix rl2_obs rl2_select rl2_elem rl2_col rl2_sum rl2_max rl2_argmax rl2_ravel rl2_concat rl2_map rl2_map_col rl2_col_counts rl2_col_sum rl2_col_range rl2_intervals rl2_any_Z rl2_mean_Z rl2_rowagg varlen_concat op_ufunc op_reduce op_cumsum op_accumulate op_diff op_sort op_unique op_nonzero op_subset op_rslice op_rslice1d op_rslice2d op_padded op_colsum op_colcounts op_colmean op_argmax op_argmin rle_windows_Z rle_rlmask_Z op_fastidx op_where op_where_s op_like op_concat1 rle_encode rle_to_array rle_slice rle_slice_spec rle_get rle_bin rle_bin_spec rle_concat_Z rle_sum_Z rle_decode bit_unpack bit_get bit_getlist bit_window spec_windows Z.add Z.mul Z.opp Z.div_eucl Z.ltb hash_model hash_spec hash_eq hash_add setitem_model_Z setitem_spec_Z getitem_model_Z getitem_spec_Z chain_model_Z chain_spec_Z shape_codes sh_starts sh_lengths sh_size excl_prefix.
